@@ -198,22 +198,42 @@ func (n *Node) setupExec(ctx context.Context) (executor.Executor, error) {
 		stdout = io.MultiWriter(n.logWriter, n.stdoutWriter)
 	}
 
+	// Standard error goes where standard output goes, except into the
+	// capture pipe: the value of output: is the command's standard output.
+	stderr := stdout
+
 	if n.data.Step.Output != "" {
 		var err error
 		if n.outputReader, n.outputWriter, err = os.Pipe(); err != nil {
 			return nil, err
 		}
-		stdout = io.MultiWriter(stdout, n.outputWriter)
+		// The two streams are now different writers that share the log:
+		// serialise their writes.
+		shared := &syncWriter{w: stdout}
+		stderr = shared
+		stdout = io.MultiWriter(shared, n.outputWriter)
 	}
 
 	cmd.SetStdout(stdout)
 	if n.stderrWriter != nil {
 		cmd.SetStderr(n.stderrWriter)
 	} else {
-		cmd.SetStderr(stdout)
+		cmd.SetStderr(stderr)
 	}
 
 	return cmd, nil
+}
+
+// syncWriter serialises the writes of several goroutines to one writer.
+type syncWriter struct {
+	mu sync.Mutex
+	w  io.Writer
+}
+
+func (s *syncWriter) Write(p []byte) (int, error) {
+	s.mu.Lock()
+	defer s.mu.Unlock()
+	return s.w.Write(p)
 }
 
 func (n *Node) getRetryCount() int {
